@@ -1,1 +1,11 @@
 import ThriftVerif.Props.C08
+#print axioms Props.C08.template_constants_sound
+#print axioms Props.C08.msg_roundtrip
+#print axioms Props.C08.extends_dispatch
+#print axioms Props.C08.extends_dispatch_step
+#print axioms Props.C08.call_roundtrip
+#print axioms Props.C08.handler_sees_args
+#print axioms Props.C08.unknown_method
+#print axioms Props.C08.wire_shape_request
+#print axioms Props.C08.wire_shape_reply
+#print axioms Props.C08.call_sequence
